@@ -1,15 +1,15 @@
 """C43 — lint auto-fix changes only what the fixed rules target."""
-import os
+import atexit
 import re
 import shutil
 import sys
 import tempfile
 from pathlib import Path
 
-from loki import Sourcefile, FindNodes, FindInlineCalls
+from loki import Sourcefile, FindNodes
 from loki import ir
 from loki.frontend import FP
-from loki.lint import Linter, Reporter
+from loki.lint import Linter, Reporter, DefaultHandler
 
 from ..core import Prop, Case, Failure, REPO, VERIF
 from ..sexpr import A
@@ -23,9 +23,9 @@ OPRULE = ifs_rules.Fortran90OperatorsRule
 UBRULE = debug_rules.DynamicUboundCheckRule
 
 SYMS = {'eq': '==', 'ne': '/=', 'lt': '<', 'le': '<=', 'gt': '>', 'ge': '>='}
-CLASSES = ['ops-fix-raises', 'ops-check-raises', 'ops-nonlower-spelling', 'ops-lookalike-in-literal',
+CLASSES = ['ops-fix-raises', 'ops-nonlower-spelling', 'ops-span-heuristic', 'ops-lookalike-in-literal',
            'ops-unparsed-statement', 'ops-mixed-spelling-in-node', 'ops-same-op-on-several-lines',
-           'ubound-fix-rewrites-frame', 'ubound-inline-if-duplicated', 'ubound-removes-other-code',
+           'ubound-fix-reformats-statements', 'ubound-inline-if-duplicated', 'ubound-removes-other-code',
            'ubound-not-an-ubound-check']
 
 _TMP = None
@@ -37,6 +37,7 @@ def tmpdir():
         base = VERIF / '.work'
         base.mkdir(exist_ok=True)
         _TMP = Path(tempfile.mkdtemp(prefix='c43_', dir=str(base)))
+        atexit.register(shutil.rmtree, str(_TMP), ignore_errors=True)
     return _TMP
 
 
@@ -170,8 +171,26 @@ def known_several(nodes):
     return False
 
 
+def py_source_find(src, expr):
+    """mirror of `sourceFind` (itself the model of Source.find)"""
+    s, t = expr.lower(), src.lower()
+    if not src:
+        return None
+    if s in t:
+        return (t.find(s), t.find(s) + len(s))
+    parts = s.split()
+    if parts and parts[0] in t and all(p in t for p in parts):
+        return (t.find(parts[0]), t.find(parts[-1]) + len(parts[-1]))
+    return None
+
+
+def known_span(nodes):
+    return any(e.lower() not in src.lower() and py_source_find(src, e) is not None for _, src, e, _ in nodes)
+
+
 def known_flags(src, nodes):
-    return [known_nonlower(src), known_literal(src), known_unparsed(src), known_mixed(nodes), known_several(nodes)]
+    return [known_nonlower(src), known_literal(src), known_unparsed(src), known_mixed(nodes), known_several(nodes),
+            known_span(nodes)]
 
 
 # ------------------------------------------------------------------ real code: operators rule
@@ -194,9 +213,24 @@ def real_nodes(routine):
 
 
 def new_linter(rules):
-    return Linter(Reporter([]), rules=rules)
+    return Linter(Reporter([DefaultHandler(target=lambda *a, **k: None)]), rules=rules)
 
 
+_MEMO = {}
+
+
+def memo(f):
+    def g(src):
+        k = (f.__name__, src)
+        if k not in _MEMO:
+            if len(_MEMO) > 4000:
+                _MEMO.clear()
+            _MEMO[k] = f(src)
+        return _MEMO[k]
+    return g
+
+
+@memo
 def run_ops(src, with_fix=True):
     """run the real check (and fix) of Fortran90OperatorsRule on a file with text ``src``"""
     path = tmpdir() / 'ops.F90'
@@ -321,9 +355,7 @@ def gen_body(rng):
 
 def detect_request(body):
     """parse with the real frontend and attach what check_subroutine gets from the IR (re-derived by impl on every run)"""
-    src = program(body)
-    sf = Sourcefile.from_source(src, frontend=FP)
-    nodes = real_nodes(sf['s'])
+    nodes = run_ops(program(body))['nodes']
     return [A('detect'), body] + [[A('n'), l0, s, [A('e'), e] + list(ops)] for l0, s, e, ops in nodes]
 
 
@@ -352,9 +384,14 @@ def ub_render(desc):
         lines.append(f'  real, intent(inout) :: {name}({shape})  ! field {name}')
     lines += ['  character(len=*), intent(in) :: c', '  integer :: i', '']
     fill = list(desc['filler'])
+    nc, index = 0, []
     for cond in desc['conds']:
         if fill:
-            lines.append(fill.pop(0))
+            f = fill.pop(0)
+            nc += 1 if re.match(r'\s*if\b', f, re.I) else 0
+            lines.append(f)
+        index.append(nc)       # position of this IF among all IF constructs of the body, in source order
+        nc += 1
         terms = []
         for k, (fn, arg, dim) in enumerate(cond['calls']):
             f = fn.upper() if cond['case'] == 'upper' else fn
@@ -370,14 +407,16 @@ def ub_render(desc):
             lines += [f'  if ({ctext}) then', f'    {body}', '  end if']
     lines += fill
     lines += [f'  call other(klon, klev, nblk, {names[0]})', 'end subroutine kernel', '']
+    desc['index'] = index
     return '\n'.join(lines)
 
 
 def ub_calls(desc):
     out = []
+    ub_render(desc)
     for ci, cond in enumerate(desc['conds']):
         for fn, arg, dim in cond['calls']:
-            out.append((fn, arg, dim if isinstance(dim, int) else None, ci))
+            out.append((fn, arg, dim if isinstance(dim, int) else None, desc['index'][ci]))
     return out
 
 
@@ -424,6 +463,7 @@ def ub_request(desc):
             ub_render(desc)]
 
 
+@memo
 def run_ubound(src):
     path = tmpdir() / 'ub.F90'
     path.write_text(src)
@@ -483,18 +523,43 @@ def ub_model(args, calls):
 class C43(Prop):
     id = 'C43'
     title = 'Lint auto-fix changes only what the fixed rules target'
-    model_modules = ['LokiModel.C43.Model']
+    model_modules = ['LokiModel.C43.Model', 'LokiModel.C43.Lemmas']
     props_module = 'LokiModel.Props.C43'
-    findings_module = None
+    findings_module = 'LokiModel.Findings.C43'
     driver = 'Drivers/C43.lean'
-    theorems = ['C43_tables_pinned']
+    theorems = ['C43_tables_pinned', 'C43_render_toks', 'C43_fix_local', 'C43_fix_retokenize', 'C43_fix_clean',
+                'C43_fix_idempotent', 'C43_fix_protected', 'C43_fix_sem_partial', 'C43_sym_injective',
+                'C43_real_fix_untouched', 'C43_findall_f77']
     design_ref = 'DESIGN.md 4.x C43'
     level = 'proof'
-    level_text = ''
-    level_note = ''
+    level_text = ('Theorems (Lean kernel; every text = any list of characters, any start state of the code/literal/comment segmenter) about '
+                  'the SPECIFICATION of the operator fixer (the real fixer raises AttributeError on every reported violation: open '
+                  'finding ops-fix-raises, so there is no running fixer to model): C43_render_toks (the tokenizer is lossless), '
+                  'C43_fix_local (the fixed text is the token sequence with only operator tokens re-spelled; every character of a '
+                  'literal or comment is its own token and unchanged), C43_fix_retokenize + C43_fix_protected (the fixed text segments '
+                  'the same way, literal and comment characters identical in order), C43_fix_clean (no violation left), '
+                  'C43_fix_idempotent; C43_fix_sem_partial + C43_sym_injective (per token: the symbol written is read back by the F90 '
+                  'symbol table as the same operator when the next character is not "="; the whole-text re-lexing is oracle only). About '
+                  'the code that runs: C43_real_fix_untouched (no reports: file untouched), C43_findall_f77 (every reported text is a '
+                  'spelling of the operator named in the message), C43_tables_pinned (operator map / regex sources / fixable flags '
+                  'regenerated from /repo). Detection (Source.find, clone_lines, strip_inline_comments, line choice, findall) and the '
+                  'raising fixer are modelled line by line and tied to the real Linter by correspondence; "reported = F77 operators in '
+                  'code tokens" is checked by the direct oracle only and fails in six open classes. DynamicUboundCheckRule: decision '
+                  'model (which arguments are reported, which IF constructs are removed) by correspondence; text preservation, re-lint '
+                  'and re-parse of the written file by the direct oracle only (four open classes).')
+    level_note = ('The frontend (fparser -> IR), ComparisonRetriever and str(expression) are inputs of the detection model: the '
+                  'request carries node source / str(expr) / operator set and impl re-derives them from the real frontend on every '
+                  'run. The conservative writer (fgen conservative=True, C03) is not modelled. No gfortran run: "same outputs" is '
+                  'checked at token level only (and by the removed-block checks for the UBOUND rule).')
     technique = ('Lean 4 theorems about a token-level specification of the operator fixer and a line-level model of what '
                  'Fortran90OperatorsRule.check_subroutine / Linter.fix do + correspondence with the real Linter + fix/re-lint/diff oracle')
-    rule = ''
+    rule = ('detect stream: random routine bodies of 1-4 statements (assignment, inline/block/else-if IF, DO WHILE, CALL, MERGE, '
+            '.not., PRINT) with 1-3 comparisons each, operator spelling drawn from a per-body style set (lower/upper/mixed-case F77, '
+            'F90), tight or blank-separated, continuation lines with comments, look-alike text in literals and comments; spec '
+            'streams: the same programs and random concatenations of 34 fragments through the Lean spec tokenizer vs its Python '
+            'mirror; ubound stream: 1-3 array arguments (rank 1-3, assumed or explicit shape) with full/partial/joined/repeated '
+            'checks (ubound/size/lbound, literal or variable dimension, </> orientation, abort or other body, inline or block form, '
+            'upper/lower case) mixed with filler statements; non-trivial = an F77 operator in code / at least one check; distinct by request')
     trusted_base = ['harness/props/c43.py: Python mirror of the spec tokenizer and of the known-class predicates (diffed with the Lean ones)',
                     'harness/props/c43.py: renderer of the abstract UBOUND-check descriptions to Fortran',
                     'Lean driver evaluation of the model definitions']
@@ -524,9 +589,9 @@ class C43(Prop):
 
     # ---- generator
     def gen(self, rng, tier):
-        n_ops = {'quick': 220, 'thorough': 2500, 'search': 900}.get(tier, 220)
-        n_ub = {'quick': 60, 'thorough': 700, 'search': 250}.get(tier, 60)
-        n_fz = {'quick': 400, 'thorough': 6000, 'search': 1500}.get(tier, 400)
+        n_ops = {'quick': 110, 'thorough': 6000, 'search': 700}.get(tier, 110)
+        n_ub = {'quick': 40, 'thorough': 1800, 'search': 200}.get(tier, 40)
+        n_fz = {'quick': 400, 'thorough': 12000, 'search': 1500}.get(tier, 400)
         seen = set()
         for _ in range(n_ops):
             body = gen_body(rng)
@@ -577,8 +642,10 @@ class C43(Prop):
 
     # ---- direct oracle
     def detect_class(self, src, nodes):
-        names = CLASSES[2:7]
-        return next((n for n, f in zip(names, known_flags(src, nodes)) if f), None)
+        fl = known_flags(src, nodes)
+        order = [('ops-nonlower-spelling', fl[0]), ('ops-span-heuristic', fl[5]), ('ops-lookalike-in-literal', fl[1]),
+                 ('ops-unparsed-statement', fl[2]), ('ops-mixed-spelling-in-node', fl[3]), ('ops-same-op-on-several-lines', fl[4])]
+        return next((n for n, f in order if f), None)
 
     def oracle(self, req):
         op = str(req[0])
@@ -598,7 +665,7 @@ class C43(Prop):
         want = sorted((s, sp.lower()) for s, sp in spec_viol(src))
         if res['check_error']:
             return [Failure(f'Linter.check raises IndexError on a file with comparison operators {[sp for _, sp in spec_viol(src)]!r}',
-                            'ops-check-raises' if known_nonlower(src) else cls)]
+                            cls)]
         got = sorted((s, f.lower()) for s, f, _ in res['reports'])
         if got != want:
             fails.append(Failure(f'reported F77 operators {got!r} but the code tokens of the file contain {want!r}', cls))
@@ -682,32 +749,61 @@ class C43(Prop):
                                     'ubound-inline-if-duplicated' if inline_left else None)]
         if again:
             fails.append(Failure(f're-lint of the fixed file still reports {again!r}', None))
+        # the targeted IF constructs are gone (each generated check line is unique up to repeated checks, which are all targeted or none)
+        left = [lines[res['conds'][i][0] - 1] for i in rem if lines[res['conds'][i][0] - 1] in fixed.split('\n')
+                and sum(1 for k, (a, _) in enumerate(res['conds']) if lines[a - 1] == lines[res['conds'][i][0] - 1] and k not in rem) == 0]
+        if left:
+            fails.append(Failure(f'the run-time check {left[0].strip()!r} of a reported argument is still in the fixed file', None))
         # text outside the targeted spans
         decl_lines = {i for i, l in enumerate(lines, 1) if re.match(r'\s*real\b', l) and any(re.search(rf'\b{n}\b', l) for n in rep)}
-        frame = {i for i, l in enumerate(lines, 1) if re.match(r'\s*(subroutine|end subroutine|implicit none)\b', l)}
         flines = fixed.split('\n')
+        squash = lambda l: ''.join(l.split()).lower()
+        fsq = [squash(l) for l in flines]
         j = 0
-        frame_changed = False
+        reformatted = []
         for i, l in enumerate(lines, 1):
             if i in cond_lines or i in decl_lines:
-                continue
-            if i in frame:
-                if l not in flines:
-                    frame_changed = True
                 continue
             try:
                 j = flines.index(l, j) + 1
             except ValueError:
+                if squash(l) in fsq[j:]:
+                    j = fsq.index(squash(l), j) + 1
+                    reformatted.append(l.strip())
+                    continue
                 is_inline = bool(re.match(r'\s*if\s*\(', l, re.I)) and not l.strip().lower().endswith('then')
                 fails.append(Failure(f'untargeted line {l!r} is not carried over verbatim',
                                      'ubound-inline-if-duplicated' if is_inline else None))
                 break
-        if frame_changed:
-            fails.append(Failure('SUBROUTINE / IMPLICIT NONE / END SUBROUTINE lines are regenerated (case, spacing) by the fix',
-                                 'ubound-fix-rewrites-frame'))
-        if sorted(comments(src, skip=cond_lines | decl_lines)) != sorted(comments(fixed)):
-            fails.append(Failure('comments outside the targeted spans changed', None))
+        if reformatted:
+            fails.append(Failure(f'untargeted statements are regenerated with other keyword case / spacing by the fix: {reformatted!r}',
+                                 'ubound-fix-reformats-statements'))
+        have = comments(fixed)
+        for cm in comments(src, skip=cond_lines | decl_lines):
+            if cm in have:
+                have.remove(cm)
+            else:
+                fails.append(Failure(f'comment {cm!r} outside the targeted spans is lost or changed', None))
+                break
         return fails
+
+    def canon_model(self, resp):
+        # the removed conditionals are a set (keys of node_map): ascending order on both sides
+        if isinstance(resp, list) and len(resp) == 3 and isinstance(resp[2], list) and resp[2] and str(resp[2][0]) == 'removed':
+            resp = [resp[0], resp[1], [resp[2][0]] + sorted(resp[2][1:], key=lambda x: int(str(x)))]
+        return resp
+
+    def shrink_candidates(self, req):
+        """requests carry data derived from their text (IR nodes / call lists): dropping list elements makes them
+        inconsistent, so only whole body statements are dropped (detect) and nothing else"""
+        if str(req[0]) == 'detect':
+            lines = req[1].split('\n')[:-1]
+            for i in range(len(lines)):
+                body = '\n'.join(lines[:i] + lines[i + 1:]) + '\n'
+                try:
+                    yield detect_request(body)
+                except Exception:  # pylint: disable=broad-except
+                    continue
 
     def post(self, cases, impl_out, model_raw, oracle_fail):
         n_raise = sum(1 for o in impl_out if 'indexerror' in o)
